@@ -1,0 +1,56 @@
+//go:build verif
+
+// Contracts for package report, checked by /verif (pverif). Comments only.
+
+package report
+
+// ---- C17: flame-graph stack data ----
+
+// srcat(s, i, j): source index at position j of stack i.
+//@ spec macro func srcat(s *StackSet, i int, j int) int = s.Stacks[i].Sources[j]
+// firstocc(s, i, j): position j is the first (outermost) occurrence of its source in stack i.
+//@ spec func firstocc(s *StackSet, i int, j int) bool = forall j2 int :: 0 <= j2 && j2 < j ==> srcat(s, i, j2) != srcat(s, i, j)
+// goodplace(s, x, k): entry k of source x's place list points at a first occurrence of x.
+//@ spec func goodplace(s *StackSet, x int, k int) bool =
+//@     0 <= s.Sources[x].Places[k].Stack && s.Sources[x].Places[k].Stack < len(s.Stacks)
+//@     && 0 <= s.Sources[x].Places[k].Pos && s.Sources[x].Places[k].Pos < len(s.Stacks[s.Sources[x].Places[k].Stack].Sources)
+//@     && srcat(s, s.Sources[x].Places[k].Stack, s.Sources[x].Places[k].Pos) == x
+//@     && firstocc(s, s.Sources[x].Places[k].Stack, s.Sources[x].Places[k].Pos)
+
+// placesok(s, x, i, j): every entry of source x's place list is a first occurrence of x and lies
+// before position (i, j) in stack-major order; entries have strictly increasing stack indices.
+//@ spec macro func before(a int, b int, i int, j int) bool = a < i || (a == i && b < j)
+//@ spec func placesgood(s *StackSet, x int, i int, j int) bool =
+//@     forall k int :: 0 <= k && k < len(s.Sources[x].Places) ==> goodplace(s, x, k) && before(s.Sources[x].Places[k].Stack, s.Sources[x].Places[k].Pos, i, j)
+//@ spec func placesinc(s *StackSet, x int) bool =
+//@     forall k1 int, k2 int :: 0 <= k1 && k1 < k2 && k2 < len(s.Sources[x].Places) ==> s.Sources[x].Places[k1].Stack < s.Sources[x].Places[k2].Stack
+//@ spec func placescap(s *StackSet, x int) bool = len(s.Sources[x].Places) == 0 ==> cap(s.Sources[x].Places) == 0
+// listed(s, i, j): the first occurrence (i, j) is recorded in the place list of its source.
+//@ spec func listed(s *StackSet, i int, j int) bool = exists k int :: 0 <= k && k < len(s.Sources[srcat(s, i, j)].Places)
+//@     && s.Sources[srcat(s, i, j)].Places[k].Stack == i && s.Sources[srcat(s, i, j)].Places[k].Pos == j
+//@ spec func disjointplaces(s *StackSet) bool = forall x int, y int :: 0 <= x && x < y && y < len(s.Sources)
+//@     && len(s.Sources[x].Places) > 0 && len(s.Sources[y].Places) > 0 ==> !same_array(s.Sources[x].Places, s.Sources[y].Places)
+
+//@ func StackSet.fillPlaces
+//@   requires s != nil
+//@   requires inrange: forall i int, j int :: 0 <= i && i < len(s.Stacks) && 0 <= j && j < len(s.Stacks[i].Sources) ==> 0 <= srcat(s, i, j) && srcat(s, i, j) < len(s.Sources)
+//@   requires empty: forall x int :: 0 <= x && x < len(s.Sources) ==> len(s.Sources[x].Places) == 0 && cap(s.Sources[x].Places) == 0
+//@   ensures stacks_kept: same_elems(s.Stacks, old(s.Stacks)) && same_elems(s.Sources, old(s.Sources))
+//@   ensures places: forall x int, k int :: 0 <= x && x < len(s.Sources) && 0 <= k && k < len(s.Sources[x].Places) ==> goodplace(s, x, k)
+//@   ensures once: forall x int, k1 int, k2 int :: 0 <= x && x < len(s.Sources) && 0 <= k1 && k1 < k2 && k2 < len(s.Sources[x].Places)
+//@       ==> s.Sources[x].Places[k1].Stack < s.Sources[x].Places[k2].Stack
+//@   loop 1
+//@     invariant 0 <= $i && $i <= len(s.Stacks)
+//@     invariant forall x int :: 0 <= x && x < len(s.Sources) ==> placesgood(s, x, $i, 0)
+//@     invariant forall x int :: 0 <= x && x < len(s.Sources) ==> placesinc(s, x)
+//@     invariant forall x int :: 0 <= x && x < len(s.Sources) ==> placescap(s, x)
+//@     invariant disjointplaces(s)
+//@   loop 2
+//@     invariant 0 <= $i && $i <= len(stack.Sources)
+//@     invariant 0 <= i && i < len(s.Stacks) && same_elems(stack.Sources, s.Stacks[i].Sources)
+//@     invariant forall v int :: (has(seenSrcs, v) ==> seenSrcs[v]) && (has(seenSrcs, v) <==> exists j2 int :: 0 <= j2 && j2 < $i && stack.Sources[j2] == v)
+//@     invariant forall x int :: 0 <= x && x < len(s.Sources) ==> placesgood(s, x, i, $i)
+//@     invariant forall x int :: 0 <= x && x < len(s.Sources) ==> placesinc(s, x)
+//@     invariant forall x int :: 0 <= x && x < len(s.Sources) ==> placescap(s, x)
+//@     invariant forall x int, k int :: 0 <= x && x < len(s.Sources) && 0 <= k && k < len(s.Sources[x].Places) && s.Sources[x].Places[k].Stack == i ==> has(seenSrcs, x)
+//@     invariant disjointplaces(s)
